@@ -1,5 +1,5 @@
-"""Translator for C10/C11: the header ladder of `UpnpEventHandler.handle_notify` and the `"in"` coercer kind of every
-UPnP data type in const.STATE_VARIABLE_TYPE_MAPPING  ->  lean/Upnp/Gen/C10Notify.lean."""
+"""Translator for C10/C11: the header ladder of `UpnpEventHandler.handle_notify` -> lean/Upnp/Gen/C10Notify.lean.
+(The data-type table the NOTIFY model converts with is C08's: lean/Upnp/Gen/C08Types.lean.)"""
 from __future__ import annotations
 
 import ast
@@ -74,56 +74,16 @@ def ladder(fn):
     return rungs, rest[0], rest[1]
 
 
-def in_kind(e) -> str:
-    if isinstance(e, ast.Name):
-        return {"int": ".int", "str": ".str"}.get(e.id, ".other")
-    if isinstance(e, ast.Lambda) and len(e.args.args) == 1:
-        a = e.args.args[0].arg
-        b = e.body
-        if (isinstance(b, ast.Compare) and len(b.ops) == 1 and isinstance(b.ops[0], ast.In) and isinstance(b.left, ast.Call)
-                and isinstance(b.left.func, ast.Attribute) and b.left.func.attr == "lower" and not b.left.args
-                and isinstance(b.left.func.value, ast.Name) and b.left.func.value.id == a
-                and isinstance(b.comparators[0], (ast.List, ast.Tuple))
-                and all(isinstance(x, ast.Constant) and isinstance(x.value, str) for x in b.comparators[0].elts)):
-            return "(.lowerIn [" + ", ".join(lean_chars(x.value) for x in b.comparators[0].elts) + "])"
-    return ".other"
-
-
-def type_rows(tree):
-    for node in tree.body:
-        tgt = node.target if isinstance(node, ast.AnnAssign) else (node.targets[0] if isinstance(node, ast.Assign) else None)
-        if isinstance(tgt, ast.Name) and tgt.id == "STATE_VARIABLE_TYPE_MAPPING" and isinstance(node.value, ast.Dict):
-            rows = []
-            for k, v in zip(node.value.keys, node.value.values):
-                if not (isinstance(k, ast.Constant) and isinstance(v, ast.Dict)):
-                    raise Untranslatable("type mapping row")
-                d = {kk.value: vv for kk, vv in zip(v.keys, v.values) if isinstance(kk, ast.Constant)}
-                if "in" not in d or "type" not in d:
-                    raise Untranslatable(f"type {k.value}: no in/type")
-                ik = in_kind(d["in"])
-                pt = d["type"].id if isinstance(d["type"], ast.Name) else "?"
-                # the python type must be what the coercer produces, else the schema's type validator rejects it
-                if (ik == ".int" and pt != "int") or (ik == ".str" and pt != "str") or (ik.startswith("(.lowerIn") and pt != "bool") \
-                        or "validator" in d and ik != ".other":
-                    ik = ".other"
-                rows.append(f"({lean_chars(k.value)}, {ik})")
-            return rows
-    raise Untranslatable("STATE_VARIABLE_TYPE_MAPPING not found")
-
-
 @extract.generator("C10Notify")
 def gen(repo: Path) -> str:
     fn = find_method(extract.parse(repo, SRC), "UpnpEventHandler", "handle_notify")
     rungs, backlog, done = ladder(fn)
-    rows = type_rows(extract.parse(repo, CONST))
-    out = extract.HEADER.format(src=SRC + ", " + CONST)
+    out = extract.HEADER.format(src=SRC)
     out += "import Upnp.Model.C10Base\nnamespace Upnp.Gen.C10Notify\nopen Upnp.C09 Upnp.C10\n\n"
     out += "/-- handle_notify: leading header tests (disjuncts, status returned when one holds) -/\n"
     out += "def notifyLadder : List (List NCond × Nat) :=\n  [" + ",\n   ".join(
         "([" + ", ".join(ds) + f"], {st})" for ds, st in rungs) + "]\n\n"
     out += f"/-- status returned when the SID is not routed (stored in the backlog) -/\ndef backlogStatus : Nat := {backlog}\n"
     out += f"/-- status returned after the event was applied -/\ndef doneStatus : Nat := {done}\n\n"
-    out += "/-- const.STATE_VARIABLE_TYPE_MAPPING: data type ↦ kind of its \"in\" coercer -/\n"
-    out += "def typeIn : List (Str × InKind) :=\n  [" + ",\n   ".join(rows) + "]\n"
     out += "\nend Upnp.Gen.C10Notify\n"
     return out
